@@ -126,6 +126,21 @@ def quiet():
 KINDS = [("str",), ("str", "regex"), ("str", "regex", "bytes"), ("str", "bits"), ("str", "regex", "bytes", "bits")]
 
 
+SWEEP_SPECS = [
+    ('<start> ::= <d>{4} <body>\n<body> ::= <w>{2,3} "."\n<w> ::= <d>{2} " "\n<d> ::= "0" | "1"\n', ["<start>", "<body>", "<w>"]),
+    ('<start> ::= <h> <x>{3,5} <t>?\n<h> ::= "#" | "##"\n<x> ::= "a" <y>{2,}\n<y> ::= "b" | "c"\n<t> ::= "!"\n', ["<start>", "<x>"]),
+    ('<start> ::= (<p> <q>){2} <r>{3}\n<p> ::= "p"\n<q> ::= "q" | "qq"\n<r> ::= <p> | <q>\n', ["<start>"]),
+]
+_SWEEP = {}
+
+
+def _sweep_fandango(spec):
+    from fandango import Fandango
+    if spec not in _SWEEP:
+        _SWEEP[spec] = Fandango(spec)
+    return _SWEEP[spec]
+
+
 def gen_case(rng):
     from fandango import Fandango
     for _ in range(50):
@@ -166,7 +181,7 @@ def correspondence(res):
         for k in range(8):
             rec = Recorder()
             random.seed(rng.randrange(1 << 30))
-            budget = rng.choice([1, 5, 20, 50, 100])
+            budget = rng.choice([1, 2, 3, 4, 5, 7, 10, 14, 20, 50, 100])
             rec.install()
             try:
                 t = g.fuzz("<start>", max_nodes=budget)
@@ -210,6 +225,32 @@ def correspondence(res):
                 gx.announce_tree(out)
                 der_terms.append(f"({gx.term()}, {coq_string('<start>')}, {export.export_tree(out)})")
                 der_info.append({"kind": "replace-result", "spec": spec, "tree": export.tree_py(out)})
+    # budget sweep: bounded repetitions entered with every small budget (directly as the rule of the fuzzed symbol, and behind / before siblings)
+    for spec, starts in SWEEP_SPECS:
+        fan = _sweep_fandango(spec)
+        g = fan.grammar
+        gx = export.GrammarExport(g)
+        trees = []
+        for st in starts:
+            for budget in range(0, 31 if res.tier == "quick" else 61):
+                rec = Recorder()
+                random.seed(rng.randrange(1 << 30))
+                rec.install()
+                try:
+                    t = g.fuzz(st, max_nodes=budget)
+                except Exception as e:
+                    rec.uninstall()
+                    res.bump("fuzz_raised_" + type(e).__name__)
+                    continue
+                rec.uninstall()
+                gx.announce_tree(t)
+                trees.append((t, rec.tape, budget, st))
+        for t, tape, budget, st in trees:
+            fuel = min(tree_depth(t) + 2, 4000)
+            fuzz_terms.append(f"({gx.term()}, {coq_string(st)}, {coq_nat(fuel)}, {tape_term(tape)}, {export.export_tree(t)})")
+            fuzz_info.append({"spec": spec, "start": st, "budget": budget, "tree": export.tree_py(t), "tape": [list(map(str, x)) for x in tape]})
+            res.count(("fuzz-sweep", spec, st, budget), nontrivial=tree_size(t) >= 4)
+            res.bump("fuzz_budget_sweep")
     # replace_multiple with two simultaneous replacements (what constraint-driven repair does), often nested
     multi_terms, multi_info = [], []
     rng2 = random.Random(res.seed * 37 + 11)
